@@ -7,6 +7,7 @@ import (
 	"context"
 	"fmt"
 	"log/slog"
+	"sort"
 	"strings"
 	"time"
 	"unicode/utf8"
@@ -255,6 +256,13 @@ type Tokenizer struct {
 	dialect    keywords.SQLDialect // SQL dialect for dialect-specific keyword recognition
 	logger     *slog.Logger        // Optional structured logger for verbose tracing
 	Comments   []models.Comment    // Comments captured during tokenization
+
+	// Column cache for toSQLPosition: the column of byte colCacheIndex on the
+	// line starting at colCacheLineStart.
+	colCacheValid     bool
+	colCacheLineStart int
+	colCacheIndex     int
+	colCacheColumn    int
 }
 
 // New creates a new Tokenizer with default configuration and keyword support.
@@ -1650,35 +1658,49 @@ func (t *Tokenizer) readPunctuation() (models.Token, error) {
 	return models.Token{}, errors.UnexpectedCharError(r, t.getCurrentPosition(), string(t.input))
 }
 
+// lineContaining returns the 1-based number and the start offset of the line
+// that contains byte offset idx, by binary search over the pre-scanned line
+// starts (a linear scan here made tokenizing quadratic in the number of lines).
+func (t *Tokenizer) lineContaining(idx int) (line, lineStart int) {
+	// first line start that lies beyond idx; the line before it contains idx
+	n := sort.Search(len(t.lineStarts), func(i int) bool { return t.lineStarts[i] > idx })
+	if n == 0 {
+		return 1, 0
+	}
+	return n, t.lineStarts[n-1]
+}
+
 // toSQLPosition converts an internal Position => a models.Location
 func (t *Tokenizer) toSQLPosition(pos Position) models.Location {
-	// Find the line containing pos
-	line := 1
-	lineStart := 0
+	line, lineStart := t.lineContaining(pos.Index)
 
-	// Find the line number using lineStarts
-	for i := 0; i < len(t.lineStarts); i++ {
-		if t.lineStarts[i] > pos.Index {
-			break
-		}
-		line = i + 1
-		lineStart = t.lineStarts[i]
-	}
-
-	// Calculate column by counting characters from line start
-	// Column is 1-based, so we start at 1
+	// Calculate column by counting characters from line start.
+	// Column is 1-based, so we start at 1. Positions are requested in
+	// increasing order while scanning, so counting resumes from the last
+	// answer on the same line instead of from the line start (re-counting
+	// made tokenizing quadratic in the length of a line).
 	column := 1
-	for i := lineStart; i < pos.Index && i < len(t.input); i++ {
+	from := lineStart
+	if t.colCacheValid && t.colCacheLineStart == lineStart && t.colCacheIndex >= lineStart && t.colCacheIndex <= pos.Index {
+		from = t.colCacheIndex
+		column = t.colCacheColumn
+	}
+	end := pos.Index
+	if end > len(t.input) {
+		end = len(t.input)
+	}
+	for i := from; i < end; i++ {
 		if t.input[i] == '\t' {
 			column += 4 // Treat tab as 4 spaces
 		} else {
 			column++
 		}
 	}
-
-	// Ensure column is never less than 1
-	if column < 1 {
-		column = 1
+	if end >= from {
+		t.colCacheValid = true
+		t.colCacheLineStart = lineStart
+		t.colCacheIndex = end
+		t.colCacheColumn = column
 	}
 
 	return models.Location{
@@ -1726,13 +1748,7 @@ func isIdentifierChar(r rune) bool {
 // line before the given byte index. Used to determine if a comment is inline.
 func (t *Tokenizer) hasCodeBeforeOnLine(idx int) bool {
 	// Find the start of the line containing idx
-	lineStart := 0
-	for i := len(t.lineStarts) - 1; i >= 0; i-- {
-		if t.lineStarts[i] <= idx {
-			lineStart = t.lineStarts[i]
-			break
-		}
-	}
+	_, lineStart := t.lineContaining(idx)
 	// Check for non-whitespace between lineStart and idx
 	for i := lineStart; i < idx && i < len(t.input); i++ {
 		if t.input[i] != ' ' && t.input[i] != '\t' && t.input[i] != '\r' {
